@@ -38,7 +38,7 @@ Encodings (all blank-free)
   crate     file records joined by `;`, the first one is the root.  A record is
               id:parse:bits:lineflags:orig:visited:children
             id        decimal; stands for the path, numeric order must be the `FileName` order
-            parse     ok | lex | unclosed | panic
+            parse     ok | lex | syntax | unclosed | panic   (`syntax` is read as `lex`: both are `ParseError`)
             bits      five characters `0`/`1`: inner `#![rustfmt::skip]`, on the ignore list, generated-file
                       marker (and `format_generated_files=false`), macro rewrite failure, emitter I/O error
             lineflags flags that `format_lines` → `track_errors` sets for this file
@@ -130,6 +130,7 @@ def decVCfg (s : String) : Option (Config Cfg) := do
 def decParse : String → Option Parse
   | "ok" => some .ok
   | "lex" => some .lexErr
+  | "syntax" => some .lexErr   -- any other syntax error: reported as `ParserError::ParseError`, like a lexer error
   | "unclosed" => some .unclosed
   | "panic" => some .panic
   | _ => none
